@@ -4,6 +4,7 @@ import (
 	"fmt"
 	"go/constant"
 	"go/types"
+	"strings"
 
 	"golang.org/x/tools/go/ssa"
 )
@@ -1152,4 +1153,56 @@ func (p FPos) FactsString() string {
 		out += fmt.Sprintf("[%s idx=%d val=%v c=%s] ", x.call.String(), x.idx, x.val, x.cval)
 	}
 	return out
+}
+
+// BoundTarget: fn is the synthetic wrapper of a bound method value (`obj.method` used as a function value): returns the
+// method it forwards to, else nil.
+func BoundTarget(fn *ssa.Function) *ssa.Function {
+	if fn == nil || fn.Synthetic == "" || !strings.HasSuffix(fn.Name(), "$bound") {
+		return nil
+	}
+	for _, b := range fn.Blocks {
+		for _, in := range b.Instrs {
+			if call, ok := in.(*ssa.Call); ok {
+				if sc := call.Call.StaticCallee(); sc != nil && len(call.Call.Args) > 0 {
+					if _, isFree := call.Call.Args[0].(*ssa.FreeVar); isFree {
+						return sc
+					}
+				}
+			}
+		}
+	}
+	return nil
+}
+
+// FlatRootBound: the flat root of the method behind a bound method value handed to a library as a callback: the
+// receiver parameter stands for the object the value was taken from, in the terms of the function that took it.
+func (w *World) FlatRootBound(mc *ssa.MakeClosure, method *ssa.Function) *FCtx {
+	root := w.FlatRoot(method)
+	params := map[string]*Expr{}
+	if len(mc.Bindings) == 1 && len(method.Params) > 0 {
+		bound := w.ExprOf(mc.Bindings[0])
+		if al, ok := stripConv(mc.Bindings[0]).(*ssa.Alloc); ok {
+			// a pointer to a local record: what the record holds where the method value is taken
+			if c := w.ContentAt(mc, al); c != nil {
+				bound = c
+			}
+		}
+		params[method.Params[0].Name()] = w.ResolveCaptured(bound)
+	}
+	root.en = &env{params: params}
+	return root
+}
+
+// ContentAt: the content of the local record al as it stands just before instruction at (reaching definitions), as a
+// reference to it (what a pointer to the local stands for when handed to a helper at that point).
+func (w *World) ContentAt(at ssa.Instruction, al *ssa.Alloc) *Expr {
+	if al.Parent() == nil {
+		return nil
+	}
+	b := w.builderFor(al.Parent())
+	if b.rd == nil {
+		return nil
+	}
+	return &Expr{Op: "ref", Args: []*Expr{b.rd.at(at, al, nil)}, V: al}
 }
